@@ -125,6 +125,7 @@
     #[kani::stub(crate::enc::encoder::LZMAEncoder::encode_for_lzma2, crate::enc::lzma2_writer::verif_kani::encode_for_lzma2_stub)]
     #[kani::stub(std::sync::Condvar::notify_one, notify_stub)]
     #[kani::stub(std::sync::Condvar::notify_all, notify_stub)]
+    #[kani::stub(alloc::sync::Arc::drop_slow, vk::arc_leak_stub)]
     //@CHAN
     fn c08_worker_w_lzma2_two_units() {
         vk::chan_init::<ResultUnit>();
@@ -137,7 +138,7 @@
         let _tx2 = core::mem::ManuallyDrop::new(tx.clone());
         let n0: usize = vk::any();
         let n1: usize = vk::any();
-        vk::assume(n0 >= 1 && n0 <= 2 && n1 >= 1 && n1 <= 2);
+        vk::assume(n0 >= 1 && n0 <= 2 && n1 == 1);
         let s0: u64 = vk::any();
         let s1: u64 = vk::any();
         let mut d0 = Vec::new();
@@ -224,3 +225,79 @@
         let r = LZMA2WriterMT::new(vk::Sink::<16>::new(), o, vk::any());
         assert!(r.is_err() && unsafe { SPAWNED } == 0);
     }
+
+    // ---------------------------------------------------------------- C18.mt / C13.unit: work units cut by byte count only
+    pub(crate) static mut SENT_N: usize = 0;
+    pub(crate) static mut SENT_LENS: [usize; 6] = [0; 6];
+    pub(crate) static mut SENT_SUM: u32 = 0;       // ghost: running sum of the bytes of all units, in dispatch order
+    /// send_work_unit by contract (own body: queue push + spawn rule, C10.bound): the current unit is handed over with
+    /// the next sequence number and a fresh unit is started. Ghost log: length and byte sum of every unit.
+    pub(crate) fn send_unit_stub<W: Write>(s: &mut LZMA2WriterMT<W>) -> io::Result<()> {
+        if s.current_work_unit.is_empty() { return Ok(()); }
+        unsafe {
+            assert!(SENT_N < 6);
+            SENT_LENS[SENT_N] = s.current_work_unit.len();
+            SENT_N += 1;
+            let mut i = 0;
+            while i < s.current_work_unit.len() { SENT_SUM = SENT_SUM.wrapping_mul(31).wrapping_add(s.current_work_unit[i] as u32); i += 1; }
+        }
+        s.current_work_unit.clear();
+        s.next_sequence_to_dispatch += 1;
+        Ok(())
+    }
+    /// get_next_compressed_chunk by contract for the cutting harness: no result is ready yet
+    pub(crate) fn no_result_stub<W: Write>(_s: &mut LZMA2WriterMT<W>, _blocking: bool) -> io::Result<Option<Vec<u8>>> { Ok(None) }
+
+    /// One write of 20 bytes into a writer that already holds K pending bytes, unit size 8: every unit handed to the
+    /// workers has exactly 8 bytes, the units are the input bytes in order (pending first), fewer than 8 bytes stay
+    /// pending, everything is reported as consumed - whatever K is. (Unit boundaries depend on byte counts only.)
+    fn mt_write_cut<const K: usize>() {
+        unsafe { SENT_N = 0; SENT_SUM = 0; SPAWNED = 0; }
+        let o = LZMA2Options { lzma_options: crate::LZMAOptions { dict_size: 4096, lc: 3, lp: 0, pb: 2, mode: crate::EncodeMode::Fast, nice_len: 32, mf: crate::MFType::HC4,
+            depth_limit: 0, preset_dict: None }, chunk_size: core::num::NonZeroU64::new(4096) };
+        let mut w = match LZMA2WriterMT::new(vk::Sink::<16>::new(), o, 2) { Ok(w) => core::mem::ManuallyDrop::new(w), Err(_) => { assert!(false); return; } };
+        w.chunk_size = 8;
+        let pend: [u8; 8] = vk::any();
+        let buf: [u8; 20] = vk::any();
+        let mut want: u32 = 0;
+        let mut i = 0;
+        while i < K { w.current_work_unit.push(pend[i]); want = want.wrapping_mul(31).wrapping_add(pend[i] as u32); i += 1; }
+        let full = (K + 20) / 8;
+        let rest = (K + 20) % 8;
+        i = 0;
+        while i < 20 - rest { want = want.wrapping_mul(31).wrapping_add(buf[i] as u32); i += 1; }
+        let r = w.write(&buf);
+        assert!(matches!(r, Ok(20)), "write must consume the whole buffer");
+        assert!(unsafe { SENT_N } == full, "number of dispatched units");
+        i = 0;
+        while i < 6 { if i < full { assert!(unsafe { SENT_LENS[i] } == 8, "a dispatched unit is not exactly the unit size"); } i += 1; }
+        assert!(w.current_work_unit.len() == rest);
+        assert!(unsafe { SENT_SUM } == want, "units are not the input bytes in order");
+        i = 0;
+        while i < 8 { if i < rest { assert!(w.current_work_unit[i] == buf[20 - rest + i]); } i += 1; }
+        assert!(w.next_sequence_to_dispatch == full as u64);
+    }
+    #[kani::proof]
+    #[kani::unwind(22)]
+    #[kani::stub(LZMA2WriterMT::spawn_worker_thread, spawn_stub)]
+    #[kani::stub(LZMA2WriterMT::send_work_unit, send_unit_stub)]
+    #[kani::stub(LZMA2WriterMT::get_next_compressed_chunk, no_result_stub)]
+    #[kani::stub(alloc::sync::Arc::drop_slow, vk::arc_leak_stub)]
+    //@ERR
+    fn c18_mt_write_cut_lzma2_k0() { mt_write_cut::<0>(); }
+    #[kani::proof]
+    #[kani::unwind(22)]
+    #[kani::stub(LZMA2WriterMT::spawn_worker_thread, spawn_stub)]
+    #[kani::stub(LZMA2WriterMT::send_work_unit, send_unit_stub)]
+    #[kani::stub(LZMA2WriterMT::get_next_compressed_chunk, no_result_stub)]
+    #[kani::stub(alloc::sync::Arc::drop_slow, vk::arc_leak_stub)]
+    //@ERR
+    fn c18_mt_write_cut_lzma2_k3() { mt_write_cut::<3>(); }
+    #[kani::proof]
+    #[kani::unwind(22)]
+    #[kani::stub(LZMA2WriterMT::spawn_worker_thread, spawn_stub)]
+    #[kani::stub(LZMA2WriterMT::send_work_unit, send_unit_stub)]
+    #[kani::stub(LZMA2WriterMT::get_next_compressed_chunk, no_result_stub)]
+    #[kani::stub(alloc::sync::Arc::drop_slow, vk::arc_leak_stub)]
+    //@ERR
+    fn c18_mt_write_cut_lzma2_k7() { mt_write_cut::<7>(); }
